@@ -607,6 +607,15 @@ void ArrayManager::processArrayDeclaration(Variable &var, const ASTNode *node) {
                                     static_cast<long long>(coerced_value));
                                 coerced_value = 0;
                             }
+                            // every element of the literal is a store into
+                            // the element type (same check as
+                            // CommonOperations::assign_array_element_safe)
+                            if (interpreter_ && base_type != TYPE_POINTER &&
+                                !var.is_pointer) {
+                                interpreter_->check_type_range(
+                                    base_type, coerced_value, resolved_name,
+                                    var.is_unsigned);
+                            }
                             numeric_value =
                                 static_cast<long double>(coerced_value);
                         }
@@ -1300,6 +1309,15 @@ void ArrayManager::processArrayLiteralRecursive(
                                resolved_name.c_str(),
                                static_cast<long long>(coerced_value));
                     coerced_value = 0;
+                }
+                // every element of the nested literal is a store into the
+                // element type
+                if (interpreter_ && base_type != TYPE_POINTER &&
+                    !var.is_pointer) {
+                    interpreter_->check_type_range(
+                        base_type, coerced_value,
+                        "<multidimensional array literal element>",
+                        var.is_unsigned);
                 }
                 numeric_value = static_cast<long double>(coerced_value);
             }
